@@ -17,6 +17,7 @@ import (
 	"path/filepath"
 	"runtime"
 	"sort"
+	"strconv"
 	"strings"
 	"sync"
 	"syscall"
@@ -244,6 +245,9 @@ func WorkerMain() int {
 	// address-space cap: a runaway allocation must kill this worker, not the sandbox
 	var lim syscall.Rlimit
 	lim.Cur, lim.Max = 10<<30, 10<<30
+	if g, err := strconv.Atoi(os.Getenv("VERIF_AS_GB")); err == nil && g > 0 {
+		lim.Cur, lim.Max = uint64(g)<<30, uint64(g)<<30 // -race workers: the shadow memory counts against the address space
+	}
 	syscall.Setrlimit(syscall.RLIMIT_AS, &lim)
 	w := &Worker{Check: j.Check, Name: j.Worker, Tier: j.Tier, Seed: j.Seed, Shard: j.Shard, NShards: j.NShards, From: j.From, Only: j.Only, Args: j.Args, job: j}
 	if j.Progress != "" {
